@@ -148,6 +148,9 @@ def _cases(tier):
     add("split(axis=-1)", "lambda anp, x: anp.split(x, [1, 2], axis=-1)[2] * 3", [(2, 4)])
     for n_, ax in ((1, -1), (1, 0), (2, -1), (2, 0), (3, 1)):
         add(f"diff(n={n_},axis={ax})", f"lambda anp, x: anp.diff(x, n={n_}, axis={ax})", [(3, 4)])
+    for shp, n_, ax in (((2,), 2, 0), ((2, 3), 2, 0), ((3,), 3, -1), ((1, 3), 1, 0), ((2, 2), 3, 1), ((1,), 1, 0)):
+        add(f"diff(n={n_},axis={ax}) short axis", f"lambda anp, x: anp.sum(anp.diff(x, n={n_}, axis={ax})) + anp.sum(x * x)", [shp], second=False)
+        add(f"diff(n={n_},axis={ax}) short axis raw", f"lambda anp, x: anp.diff(x, n={n_}, axis={ax})", [shp], second=False)
     for ax in ("0", "1", "-1", "(0, 1)", "(1, 0)", "None"):
         add(f"gradient(axis={ax})", f"lambda anp, x: anp.array(anp.gradient(x, axis={ax})) if not isinstance({ax}, int) else anp.gradient(x, axis={ax})", [(4, 5)], mode="flt", second=False)
     add("fftshift", "lambda anp, x: anp.fft.fftshift(x)", [(2, 3)])
